@@ -22,6 +22,8 @@ type Config struct {
 	Sets   [][]int `json:"sets"` // Sets[i] = key ids of the guardian set with index i
 	OwnKey int     `json:"own_key"`
 	Msgs   []Msg   `json:"msgs"`
+	// PrivateDB: every instance gets a store of its own so that histories may contain the store-failure event
+	PrivateDB bool `json:"private_db,omitempty"`
 }
 
 // Event is one transition label. Everything is data so that a history is a replayable artefact.
@@ -64,6 +66,8 @@ func (e Event) String() string {
 		return fmt.Sprintf("Tick(+%ds)", e.DtSec)
 	case "budget":
 		return fmt.Sprintf("SetRetryCount(m=%d,%d)", e.M, e.DtSec)
+	case "dbclose":
+		return "StoreFails(from now on)"
 	}
 	return e.Kind
 }
@@ -140,7 +144,7 @@ func (c *Config) Materialise(n *Node, e Event) interface{} {
 		return processor.VerifInject{V: c.Msgs[e.M].VAA(0)}
 	case "tick":
 		return processor.VerifTick{}
-	case "budget":
+	case "budget", "dbclose":
 		return nil
 	}
 	panic("unknown event kind " + e.Kind)
@@ -248,6 +252,8 @@ type Model struct {
 	C   *Config
 	Cur int // current set index, -1 none
 	Ent map[string]*mEntry
+	// DBClosed: the store fails every write and lookup from now on (fault scenarios)
+	DBClosed bool
 }
 
 func NewModel(c *Config) *Model { return &Model{C: c, Cur: -1, Ent: map[string]*mEntry{}} }
@@ -284,6 +290,8 @@ type Expect struct {
 func (m *Model) Apply(e Event, in interface{}, store map[string][]byte) Expect {
 	var x Expect
 	switch e.Kind {
+	case "dbclose":
+		m.DBClosed = true
 	case "set":
 		m.Cur = e.Set
 	case "msg", "inject":
@@ -371,6 +379,9 @@ func (m *Model) Key() string {
 		ks = append(ks, fmt.Sprintf("%s:%v:%d:%d", k[:8], rs, en.Snap, en.Published))
 	}
 	sort.Strings(ks)
+	if m.DBClosed {
+		ks = append(ks, "~store-closed")
+	}
 	return fmt.Sprintf("cur=%d|%s", m.Cur, strings.Join(ks, ";"))
 }
 
